@@ -99,6 +99,29 @@ def run(tier, seed, replay=None):
                 res.violation({"property": PID, "kind": "parser/parser.go is not the goyacc output of parser/parser.go.y: the compiled tables and the grammar source disagree",
                                "goyacc": pg.stdout[-500:], "note": "the behavioural comparison above ran against the compiled parser.go"},
                               "" if (nprob or nmodel) else "no-failing-input-found")
+        # the property's own table against the implementation, where the model follows the code: every binary operator is
+        # left-associative, so a chain reads like its left-parenthesised spelling (value and error-or-success)
+        chains = [("1 in [1] in [true]", "(1 in [1]) in [true]"), ("\"a\" in [\"a\"] in [true, false]", "(\"a\" in [\"a\"]) in [true, false]"),
+                  ("2 in [1] in [false]", "(2 in [1]) in [false]"), ("1 - 2 - 3", "(1 - 2) - 3"), ("8 / 4 / 2", "(8 / 4) / 2"), ("1 << 2 << 3", "(1 << 2) << 3"),
+                  ("7 % 4 % 2", "(7 % 4) % 2"), ("1 < 2 == true", "(1 < 2) == true"), ("1 == 1 != false", "(1 == 1) != false"), ("6 & 3 | 8", "(6 & 3) | 8"),
+                  ("1 in [1] == true", "(1 in [1]) == true"), ("true == 1 in [1]", "true == (1 in [1])"), ("1 + 1 in [2]", "1 + (1 in [2])")]
+        sf = os.path.join(scratch, "chains.json")
+        json.dump(["(%s) ?? \"E\"" % x for pair in chains for x in pair], open(sf, "w"))
+        common.sh([harness, "interp", "-srcfile", sf, "-out", scratch], env=common.GOENV, timeout=600)
+        drecs = [json.loads(l) for l in open(os.path.join(scratch, "directed.jsonl"))]
+        known, _ = common.known_findings(PID)
+        chain_checked = 0
+        for k, (a, b) in enumerate(chains):
+            ra, rb = drecs[2 * k]["impl"], drecs[2 * k + 1]["impl"]
+            chain_checked += 1
+            if (ra["status"], ra.get("result")) == (rb["status"], rb.get("result")):
+                continue
+            kf = next((f for f in known if f.get("id") == "in-is-right-associative"), None) if " in " in a and a.count(" in ") > 1 else None
+            if kf:
+                res.known(kf["id"], "%s :: `%s` gives %s %s, its left-parenthesised spelling `%s` gives %s %s" % (kf["id"], a, ra["status"], ra.get("result"), b, rb["status"], rb.get("result")))
+                continue
+            res.violation({"property": PID, "kind": "a chain of binary operators does not read like its left-parenthesised spelling (binary operators are left-associative)",
+                           "source": a, "value": [ra["status"], ra.get("result")], "parenthesised": b, "parenthesised_value": [rb["status"], rb.get("result")]})
         if bad:
             res.violation({"property": PID, "kind": "forbidden construct in the Coq development", "lines": bad}, "no-failing-input-found")
         if ob["failed"] and not res.violations:
@@ -110,6 +133,7 @@ def run(tier, seed, replay=None):
             k = (r.get("value") or "?")[:2]
             vals[k] = vals.get(k, 0) + 1
         res.coverage = {
+            "operator_chains_against_their_left_parenthesised_spelling": chain_checked,
             "obligations": ob["obligations"], "discharged": ob["discharged"], "theorems": ob["theorems"], "axioms": ob["axioms"],
             "closed_under_global_context": ob["closed_count"], "obligation_failures": ob["failed"],
             "checker_cmd": "make -C coq; coqc Properties/C03.v; per run: harness c03 regenerates AnkoGen/GenPrec.v from parser.go.y, coqc Obligations/C03.v; "
